@@ -46,6 +46,10 @@ PREMISES = {
         ("C02", ["C02.a", "C02.c", "C02.f", "C02.g"], "the pool of a token must grow by the whole payment (bond), shrink by exactly the undelegated products (unbond) and a "
                                                "conversion must credit the destination pool with the value it takes from the source pool - otherwise one rate drops"),
     ],
+    "C05": [
+        ("C06", ["C06.f"], "no fee at or above the threshold: the rate the fee gate compares with er_threshold is that of the recomputed State the resync returns (not of "
+                            "the stored copy, whose rate may be stale after a direct burn)"),
+    ],
     "C06": [
         ("C02", ["C02.e"], "the next check inside bond / unbond / convert books the loss: every pricing handler runs the resync and writes STATE only after it"),
         ("C01", ["C01.f", "C01.g", "C01.h"], "last clause of C06: loss on stake slashed while unbonding is spread over the batches released together (one group for the "
